@@ -286,7 +286,7 @@ func StaleString() {
 	k := vstub.Choose(0, 3)
 	tail := vstub.NondetBytes(k)
 	errv := vstub.NondetErr()
-	run := func(prior []byte) (int, error) {
+	run := func(prior []byte) (string, error) {
 		data := append(append([]byte{}, prior...), tail...)
 		fr := vstub.NewFragReader(data)
 		fr.Full = true
@@ -295,12 +295,16 @@ func StaleString() {
 		r := iohelp.NewErrorReader(fr)
 		_ = iohelp.ReadUint64(r)
 		got := iohelp.ReadString(r)
-		return len(got), r.Err
+		return got, r.Err
 	}
 	a, ea := run(vstub.NondetBytes(8))
 	b, eb := run(vstub.NondetBytes(8))
 	vstub.Assert("String.stale.err", vstub.And(ea != nil, eb != nil))
-	vstub.Assert("String.stale.len", a == b)
+	vstub.Assert("String.stale.len", len(a) == len(b))
+	if len(a) == len(b) {
+		// what a failed read returns does not depend on the bytes of the read before it
+		vstub.Assert("String.stale.bytes", a == b)
+	}
 	vstub.Reach("StaleString")
 }
 
@@ -335,5 +339,63 @@ func StaleString2() {
 	vstub.Reach("StaleString2")
 }
 
+// StaleString3: a short string whose body is cut off, read right after an
+// 8-byte scalar: the result does not depend on the scalar's bytes.
+func StaleString3() {
+	n := vstub.Choose(1, 9)
+	k := vstub.Choose(0, n-1)
+	if k > 3 {
+		k = 3
+	}
+	tail := vstub.NondetBytes(k)
+	errv := vstub.NondetErr()
+	run := func(prior []byte) (string, error) {
+		data := append(append([]byte{}, prior...), byte(n), 0, 0, 0)
+		data = append(data, tail...)
+		fr := vstub.NewFragReader(data)
+		fr.Full = true
+		fr.FailAt = len(data)
+		fr.Err = errv
+		r := iohelp.NewErrorReader(fr)
+		_ = iohelp.ReadUint64(r)
+		got := iohelp.ReadString(r)
+		return got, r.Err
+	}
+	a, ea := run(vstub.NondetBytes(8))
+	b, eb := run(vstub.NondetBytes(8))
+	vstub.Assert("String.stale3.err", vstub.And(ea != nil, eb != nil))
+	vstub.Assert("String.stale3.len", len(a) == len(b))
+	if len(a) == len(b) {
+		vstub.Assert("String.stale3.bytes", a == b)
+	}
+	vstub.Reach("StaleString3")
+}
+
+// StringStreamLong: a string whose declared length is large (around the sizes
+// where an implementation might switch strategy) on a stream that ends after
+// a few bytes of the body: the failure is reflected in the reader's error state.
+func StringStreamLong() {
+	sizes := []int{1, 2, 8, 9, 255, 256, 4096, 65535, 65536, 65537, 70000, 1 << 20}
+	sz := sizes[vstub.Choose(0, len(sizes)-1)]
+	k := vstub.Choose(0, 2)
+	if k >= sz {
+		return
+	}
+	body := vstub.NondetBytes(k)
+	data := []byte{byte(sz), byte(sz >> 8), byte(sz >> 16), byte(sz >> 24)}
+	data = append(data, body...)
+	fr := vstub.NewFragReader(data)
+	fr.Full = true
+	if vstub.Choose(0, 1) == 1 {
+		fr.FailAt = len(data)
+		fr.Err = vstub.NondetErr()
+	}
+	vstub.SetAllocLimit(1 << 22)
+	r := iohelp.NewErrorReader(fr)
+	_ = iohelp.ReadString(r)
+	vstub.Assert("String.long.err", r.Err != nil)
+	vstub.Reach("StringStreamLong")
+}
+
 // Hand lists the hand-written harness entry points and the reach markers each must witness.
-var Hand = []string{"BytesBool", "StreamBool", "StaleBool", "BytesGUID", "StreamGUID", "StaleGUID", "BytesDate", "StreamDate", "StaleDate", "StringBytes", "StringStream", "StaleString", "StaleString2"}
+var Hand = []string{"BytesBool", "StreamBool", "StaleBool", "BytesGUID", "StreamGUID", "StaleGUID", "BytesDate", "StreamDate", "StaleDate", "StringBytes", "StringStream", "StaleString", "StaleString2", "StaleString3", "StringStreamLong"}
